@@ -32,6 +32,17 @@ pub fn check_case(ctx: &Ctx, tcs: &[String], cfg: &Cfg) {
         let m = re.find(t).map(|m| (m.start(), m.end()));
         ctx.run.traces.fetch_add(1, std::sync::atomic::Ordering::Relaxed);
         if m != Some((0, t.len())) {
+            // Is it the pattern, or the optimised search path of the engine? The property speaks about leftmost-first
+            // semantics; the PikeVM is the engine's own reference implementation of them.
+            if let Ok(reference) = lang::pikevm_find(&text, t) {
+                if reference == Some((0, t.len())) {
+                    ctx.run.add_extra_count("engine_search_disagreements_with_its_reference_pikevm", 1);
+                    if ctx.run.want_sample() {
+                        ctx.run.sample(json!({"engine_disagreement": {"pattern": text, "haystack": t, "regex_find": m.map(|x| vec![x.0, x.1]), "pikevm_find": [0, t.len()]}}));
+                    }
+                    continue;
+                }
+            }
             let sig = format!("search-not-whole-test-case flags={}", cfg.flag_names().join(","));
             crate::findings::report(ctx, viol("C08", "search", sig, tcs, cfg, &out, json!({"searched": t, "found_span": m.map(|x| vec![x.0, x.1]), "expected_span": [0, t.len()]})));
             return;
@@ -60,6 +71,8 @@ pub fn blocks(thorough: bool) -> Vec<Block> {
         b.push(Block::new(Universe::new("U_adv(units)", &units, 2, 2, false), anch(&[0, R, X]), "{na,ne,na+ne} x {{}, r, x}"));
         b.push(Block::new(Universe::new("U_adv(units)", &units, 1, 4, false), anch(&[0, R, I, W]), "{na,ne,na+ne} x {{}, r, i, w}"));
         b.push(Block::new(Universe::new("U_a1A{a,1,A}", &["a", "1", "A"], 2, 3, true), anch(&[D, W, I, D | I | R]), "{na,ne,na+ne} x {d,w,i,d+i+r}"));
+        b.push(Block::new(Universe::new("U_mb{a,e9,-}", &["a", "\u{e9}", "-"], 3, 3, false), vec![Cfg::new(W | R | NE), Cfg::new(NW | R | NE), Cfg::new(W | R | NA | NE)], "w+r+ne, W+r+ne, w+r+na+ne (byte length vs character count in the fallback)"));
+        b.push(Block::new(Universe::new("U_fold{s,U+017F,k,U+212A}", &["s", "\u{17f}", "k", "\u{212a}"], 3, 2, false), anch(&[I, I | R]), "{na,ne,na+ne} x {i, i+r}"));
     } else {
         let b2: Vec<u32> = lattice_le(0, ALL_BITS & !(NA | NE | U | C), 2).iter().map(|c| c.bits).collect();
         b.push(Block::new(Universe::new("U_ab3{a,b}", &["a", "b"], 3, 0, true), anch(&bases7), "{na,ne,na+ne} x 7 bases"));
